@@ -53,6 +53,8 @@ CATALOGUE = {
     "N": (FORCE, 1.0, 0.0), "J": (ENERGY, 1.0, 0.0), "kJ": (ENERGY, 1e3, 0.0), "W h": (ENERGY, 3600.0, 0.0),
     "W": (POWER, 1.0, 0.0), "kW": (POWER, 1e3, 0.0), "J/s": (POWER, 1.0, 0.0),
     "W/m2": (IRR, 1.0, 0.0), "W m-2": (IRR, 1.0, 0.0), "J m-2 s-1": (IRR, 1.0, 0.0), "MJ m-2 d-1": (IRR, 1e6 / 86400.0, 0.0),
+    "m s": (d((L, 1), (T, 1)), 1.0, 0.0), "km h": (d((L, 1), (T, 1)), 3.6e6, 0.0),
+    "kg m-2": (d((M, 1), (L, -2)), 1.0, 0.0), "kg/m2": (d((M, 1), (L, -2)), 1.0, 0.0), "g cm-2": (d((M, 1), (L, -2)), 10.0, 0.0),
     # temperature (offset units)
     "K": (K, 1.0, 0.0), "kelvin": (K, 1.0, 0.0), "degC": (K, 1.0, 273.15), "celsius": (K, 1.0, 273.15),
     "degrees_Celsius": (K, 1.0, 273.15), "degF": (K, 5.0 / 9.0, 459.67 * 5.0 / 9.0),
